@@ -213,6 +213,9 @@ type Env struct {
 	// NoWSize suppresses the Size() probes after writer operations (they are not atomic
 	// with the operation, so under concurrency they would describe another instant).
 	NoWSize bool
+	// PeekID makes composite uploads ask the writer for its ID at every point where the
+	// contract makes it valid (before the first Write, after Close), not only when resuming.
+	PeekID bool
 	// Reiterate makes Exec consume every listing sequence a second time (the same Seq value) and
 	// compare: an iterator value is a function and may be ranged over again. A second pass that
 	// differs from the first adds the marker item REITERATION-DIFFERS. Only for registries whose
@@ -500,6 +503,9 @@ func (e *Env) upload(op *Op) *Outcome {
 	}
 	if w == nil {
 		return fail(errors.New("HARNESS: nil writer with nil error"))
+	}
+	if e.PeekID {
+		_ = w.ID()
 	}
 	resume := map[int]bool{}
 	for _, i := range op.ResumeAt {
